@@ -295,3 +295,94 @@ class AllocFault:
 
   def heal(self):
     self.armed = None
+
+
+# ----------------------------------------------------------------------------
+# allocation failure at an arbitrary function entry of the library
+# ----------------------------------------------------------------------------
+
+
+class CallFault:
+  """MemoryError at the k-th Python function entry inside chosen library
+  modules while armed (sys.monitoring PY_START local events on every function
+  and method of those modules, nested code objects included).  Deterministic:
+  the k-th entry is a property of the code and the inputs.  Reaches helper
+  functions that did not exist when the plan was written."""
+
+  TOOL = 3
+  _registered = False
+
+  def __init__(self):
+    import sys as _sys
+    self.mon = _sys.monitoring
+    self.codes = []
+    self.left = -1
+    self.fired = 0
+    self.where = None
+    if not CallFault._registered:
+      try:
+        self.mon.use_tool_id(self.TOOL, "dst-callfault")
+      except ValueError:
+        pass
+      CallFault._registered = True
+    self.mon.register_callback(self.TOOL, self.mon.events.PY_START,
+                               self._start)
+
+  @staticmethod
+  def _codes_of(module):
+    import types
+    seen, out = set(), []
+
+    def add_code(code):
+      if id(code) in seen:
+        return
+      seen.add(id(code))
+      out.append(code)
+      for c in code.co_consts:
+        if isinstance(c, types.CodeType):
+          add_code(c)
+
+    def visit(obj):
+      if isinstance(obj, (types.FunctionType,)):
+        if obj.__module__ == module.__name__:
+          add_code(obj.__code__)
+      elif isinstance(obj, (staticmethod, classmethod)):
+        visit(obj.__func__)
+      elif isinstance(obj, type) and obj.__module__ == module.__name__:
+        for v in vars(obj).values():
+          visit(v)
+
+    for v in list(vars(module).values()):
+      visit(v)
+    return out
+
+  def arm(self, modules, k):
+    import importlib
+    self.heal()
+    for name in modules:
+      try:
+        mod = importlib.import_module(name)
+      except Exception:  # pylint: disable=broad-except
+        continue
+      self.codes += self._codes_of(mod)
+    self.left = int(k)
+    for code in self.codes:
+      self.mon.set_local_events(self.TOOL, code, self.mon.events.PY_START)
+
+  def heal(self):
+    for code in self.codes:
+      self.mon.set_local_events(self.TOOL, code, 0)
+    self.codes = []
+    self.left = -1
+
+  def _start(self, code, offset):
+    if self.left < 0:
+      return None
+    if self.left == 0:
+      self.left = -1
+      self.fired += 1
+      self.where = "%s:%s" % (code.co_filename.split("/")[-1], code.co_name)
+      raise MemoryError("simulated allocation failure entering %s" %
+                        code.co_name)
+    self.left -= 1
+    return None
